@@ -10,7 +10,7 @@ CONSTANTS
   MaxSendErrs = 1000
   MaxResults = 1000
   BuCap = 1000
-  FixF34 = FALSE
+  FixF34 = TRUE
   KindSet = {"ok", "ne", "nr", "pe", "pp", "em"}
   GenHist = FALSE
 INIT TInit
